@@ -60,6 +60,9 @@ var c13Fragments = []fragment{
 	{`q ? (w ? 1 : 2) : 3`, false, "nested ternary"},
 	{`q ? 1 : w ? 2 : 3`, false, "nested ternary"},
 	{`q ? g(w ? 1 : 2) : 3`, false, "nested ternary"},
+	{`q ? function zh() { return w ? 2 : 3; } : 4`, false, "nested ternary (in the body of a function defined in an arm)"},
+	{`q ? function zh() { return 1; } : (w ? 2 : 3)`, false, "nested ternary (after a function defined in the other arm)"},
+	{`q ? [w, {1: function zh(z) { return z; }}, (w ? 2 : 3)] : 4`, false, "nested ternary (after a function defined deeper in the same arm)"},
 	{`#`, false, "illegal character"}, {`@`, false, "illegal character"}, {`^`, false, "illegal character"},
 	{"`", false, "illegal character"}, {`\`, false, "illegal character"},
 	{`1 & 2`, false, "lone &"}, {`1 | 2`, false, "lone |"}, {`1 ~ 2`, false, "lone ~"},
